@@ -11,6 +11,11 @@ HARNESSES = {
     "h_spinlock": {"kind": "raw", "wraps": ["fiber_manager_get", "fmc_spin_hint"], "objs": ["fiber_spinlock.o"]},
     "h_mutex": {"kind": "rt"},
     "h_barrier": {"kind": "rt"},
+    "h_yield": {"kind": "rt"},
+    "h_join": {"kind": "rt"},
+    "h_cond": {"kind": "rt"},
+    "h_sem": {"kind": "rt"},
+    "h_rwlock": {"kind": "rt"},
     "h_queues": {"kind": "raw"},
     "h_ring": {"kind": "raw"},
     "h_workq": {"kind": "raw"},
@@ -48,6 +53,116 @@ CHECKS = {
             R("h_mutex", "-P2", "-DN=2", "-Dshape=4"),
             R("h_mutex", "-P2", "-DN=2", "-Dshape=5"),
             R("h_mutex", "-P2", "-DN=3", "-Dshape=1"),
+        ],
+    },
+    "C04": {
+        "title": "join / tryjoin / detach",
+        "level_text": "All schedules within the pre-emption bound of six small programs (join, tryjoin loop, detach racing with completion, detach-then-join, two joiners on one fiber, join of an already finished fiber) on the real runtime with 1-2 kernel threads: result value, success only after the function returned, at most one successful joiner, and - through the --wrap observer and the heap shadow - reclamation exactly once, only when finished/saved/not queued and only after a join/tryjoin/detach began, with no access to the fiber, its stack or its list node afterwards.",
+        "quick": [
+            R("h_join", "-P2", "-DN=2", "-Dsc=1"),
+            R("h_join", "-P2", "-DN=2", "-Dsc=2"),
+            R("h_join", "-P2", "-DN=2", "-Dsc=3"),
+            R("h_join", "-P2", "-DN=2", "-Dsc=4"),
+            R("h_join", "-P1", "-DN=2", "-Dsc=5"),
+            R("h_join", "-P2", "-DN=2", "-Dsc=6"),
+            R("h_join", "-P2", "-DN=1", "-Dsc=5"),
+        ],
+        "thorough": [
+            R("h_join", "-P3", "-DN=2", "-Dsc=1"),
+            R("h_join", "-P3", "-DN=2", "-Dsc=3"),
+            R("h_join", "-P2", "-DN=2", "-Dsc=2"),
+            R("h_join", "-P2", "-DN=2", "-Dsc=5"),
+            R("h_join", "-P3", "-DN=2", "-Dsc=6"),
+            R("h_join", "-P2", "-DN=3", "-Dsc=1"),
+            R("h_join", "-P2", "-DN=3", "-Dsc=3"),
+        ],
+    },
+    "C05": {
+        "title": "condition variable: atomic unlock-and-wait, no lost signal",
+        "level_text": "All schedules within the pre-emption bound of 1-2 waiters (optionally re-waiting, optionally one more waiter nobody signals) and a signaller/broadcaster that first observes under the user mutex that the waiters have begun waiting, on the real fiber_cond with 1-2 kernel threads; checked on every execution: everybody a signal was aimed at returns (at quiescence), no release without a credit, wait returns with the mutex held, waiter_count and the list are consistent at the end.",
+        "quick": [
+            R("h_cond", "-P2", "-DN=2", "-DW=1", "-Dmode=0", "-Dhold=1"),
+            R("h_cond", "-P2", "-DN=2", "-DW=1", "-Dmode=0", "-Dhold=0"),
+            R("h_cond", "-P1", "-DN=2", "-DW=2", "-Dmode=1", "-Dhold=1"),
+            R("h_cond", "-P1", "-DN=2", "-DW=2", "-Dmode=0", "-Dhold=0"),
+            R("h_cond", "-P1", "-DN=2", "-DW=1", "-Dmode=0", "-Dhold=0", "-Drewait=1"),
+            R("h_cond", "-P1", "-DN=2", "-DW=1", "-Dmode=0", "-Dhold=1", "-Dextra=1"),
+            R("h_cond", "-P2", "-DN=1", "-DW=2", "-Dmode=1", "-Dhold=0"),
+        ],
+        "thorough": [
+            R("h_cond", "-P3", "-DN=2", "-DW=1", "-Dmode=0", "-Dhold=1"),
+            R("h_cond", "-P2", "-DN=2", "-DW=2", "-Dmode=1", "-Dhold=1"),
+            R("h_cond", "-P2", "-DN=2", "-DW=2", "-Dmode=1", "-Dhold=0"),
+            R("h_cond", "-P2", "-DN=2", "-DW=2", "-Dmode=0", "-Dhold=0"),
+            R("h_cond", "-P2", "-DN=2", "-DW=1", "-Dmode=0", "-Dhold=0", "-Drewait=1"),
+            R("h_cond", "-P2", "-DN=2", "-DW=1", "-Dmode=0", "-Dhold=1", "-Dextra=1"),
+            R("h_cond", "-P2", "-DN=3", "-DW=1", "-Dmode=0", "-Dhold=0"),
+        ],
+    },
+    "C06": {
+        "title": "semaphore: never over-admits, never loses a post",
+        "level_text": "All schedules within the pre-emption bound of 2-3 fibers running wait/trywait/post scripts on the real fiber_semaphore for initial values 0..2 with 1-2 kernel threads; over-admission is checked at every successful wait, trywait must not switch fibers, and when every kernel thread has gone idle the value must equal initial+posts-successful waits-blocked with nobody blocked while a unit is available.",
+        "quick": [
+            R("h_sem", "-P2", "-DN=2", "-Dshape=0", "-Dinit=0"),
+            R("h_sem", "-P1", "-DN=2", "-Dshape=1", "-Dinit=0"),
+            R("h_sem", "-P2", "-DN=2", "-Dshape=4", "-Dinit=0"),
+            R("h_sem", "-P2", "-DN=2", "-Dshape=5", "-Dinit=0"),
+            R("h_sem", "-P1", "-DN=2", "-Dshape=3", "-Dinit=1"),
+            R("h_sem", "-P1", "-DN=2", "-Dshape=2", "-Dinit=1"),
+            R("h_sem", "-P1", "-DN=2", "-Dshape=6", "-Dinit=0"),
+            R("h_sem", "-P1", "-DN=2", "-Dshape=7", "-Dinit=2"),
+            R("h_sem", "-P2", "-DN=1", "-Dshape=1", "-Dinit=0"),
+        ],
+        "thorough": [
+            R("h_sem", "-P3", "-DN=2", "-Dshape=0", "-Dinit=0"),
+            R("h_sem", "-P2", "-DN=2", "-Dshape=1", "-Dinit=0"),
+            R("h_sem", "-P2", "-DN=2", "-Dshape=2", "-Dinit=1"),
+            R("h_sem", "-P2", "-DN=2", "-Dshape=3", "-Dinit=1"),
+            R("h_sem", "-P2", "-DN=2", "-Dshape=6", "-Dinit=0"),
+            R("h_sem", "-P2", "-DN=2", "-Dshape=7", "-Dinit=2"),
+            R("h_sem", "-P2", "-DN=3", "-Dshape=1", "-Dinit=0"),
+        ],
+    },
+    "C07": {
+        "title": "read/write lock",
+        "level_text": "All schedules within the pre-emption bound of 2-3 fibers running rdlock/wrlock/tryrdlock/trywrlock scripts (including a batch of waiting readers handed off by a writer) on the real fiber_rwlock with 1-2 kernel threads; ghost occupancy at each acquisition, try variants must not switch fibers, nobody stranded, lock word and waiter lists empty at the end.",
+        "quick": [
+            R("h_rwlock", "-P2", "-DN=2", "-Dshape=0"),
+            R("h_rwlock", "-P1", "-DN=2", "-Dshape=1"),
+            R("h_rwlock", "-P1", "-DN=2", "-Dshape=2"),
+            R("h_rwlock", "-P1", "-DN=2", "-Dshape=3"),
+            R("h_rwlock", "-P1", "-DN=2", "-Dshape=4"),
+            R("h_rwlock", "-P2", "-DN=2", "-Dshape=5"),
+            R("h_rwlock", "-P1", "-DN=2", "-Dshape=6"),
+            R("h_rwlock", "-P2", "-DN=1", "-Dshape=1"),
+        ],
+        "thorough": [
+            R("h_rwlock", "-P3", "-DN=2", "-Dshape=0"),
+            R("h_rwlock", "-P2", "-DN=2", "-Dshape=1"),
+            R("h_rwlock", "-P2", "-DN=2", "-Dshape=2"),
+            R("h_rwlock", "-P2", "-DN=2", "-Dshape=3"),
+            R("h_rwlock", "-P2", "-DN=2", "-Dshape=4"),
+            R("h_rwlock", "-P2", "-DN=2", "-Dshape=6"),
+            R("h_rwlock", "-P2", "-DN=2", "-Dshape=7"),
+            R("h_rwlock", "-P2", "-DN=3", "-Dshape=1"),
+        ],
+    },
+    "C10": {
+        "title": "fiber_yield fairness",
+        "level_text": "The quantifier is over programs on ONE kernel thread (deterministic, no stealing to mask starvation): every vector of yield counts for 2-4 fibers (main polling with fiber_yield included), fibers created up front or chained, enumerated as cost-free input choices, each executed on the real runtime; a ghost bypass counter per ready fiber must stay within 2*n.",
+        "quick": [
+            R("h_yield", "-P0", "-DN=1", "-Dn=2", "-DY=8"),
+            R("h_yield", "-P0", "-DN=1", "-Dn=3", "-DY=6"),
+            R("h_yield", "-P0", "-DN=1", "-Dn=3", "-DY=6", "-Dchain=1"),
+            R("h_yield", "-P0", "-DN=1", "-Dn=4", "-DY=4"),
+        ],
+        "thorough": [
+            R("h_yield", "-P0", "-DN=1", "-Dn=2", "-DY=15"),
+            R("h_yield", "-P0", "-DN=1", "-Dn=3", "-DY=12"),
+            R("h_yield", "-P0", "-DN=1", "-Dn=3", "-DY=12", "-Dchain=1"),
+            R("h_yield", "-P0", "-DN=1", "-Dn=4", "-DY=8"),
+            R("h_yield", "-P0", "-DN=1", "-Dn=4", "-DY=8", "-Dchain=1"),
+            R("h_yield", "-P0", "-DN=1", "-Dn=5", "-DY=5"),
         ],
     },
     "C12": {
